@@ -193,6 +193,77 @@ func fifoScenario(p fifoParams) func() {
 	}
 }
 
+// fifoOutageScenario: calls issued while node 2 is down, with a send buffer, and the node coming back at an
+// instant chosen by the explorer. Whatever is delivered on one (new) connection must be started in issue
+// order and at most once; calls may be lost (their connection failed), never reordered.
+func fifoOutageScenario(p fifoParams) func() {
+	return func() {
+		w := world.New(world.Opts{N: 2, SendBuffer: p.buf, Window: p.window})
+		if w.Cfg == nil {
+			return
+		}
+		w.Handle = func(h *world.HCtx) world.Reply {
+			if h.Send != nil {
+				h.Send(0, 0)
+			}
+			return world.Reply{}
+		}
+		first := w.NewCall("Unicast") // establishes node 2's stream
+		first.Node = 2
+		w.Invoke(first)
+		mc.Quiesce()
+		w.FW.Crash(world.Addr(2))
+		mc.Quiesce()
+		var calls []*world.Call
+		for _, cs := range p.seq {
+			c := w.NewCall(cs.kind)
+			c.Node, c.NoSendWaiting = cs.node, cs.nsw
+			calls = append(calls, c)
+		}
+		mc.GoNamed("client", func() {
+			for _, c := range calls {
+				w.Invoke(c)
+			}
+		})
+		// the node comes back during round r of {activity until quiescence, all armed back-off timers fire}:
+		// a free choice of the script; within the round the explorer places the restart (adversary thread)
+		back := mc.Choose(4)
+		for r := 0; r < 12; r++ {
+			if r == back {
+				mc.GoLow("restart", func() { w.FW.Restart(world.Addr(2)) })
+			}
+			mc.Quiesce()
+			if mc.FireTimers(nil) == 0 && r > back {
+				break
+			}
+		}
+		mc.Quiesce()
+		issue := map[int]int{}
+		for i, c := range calls {
+			issue[c.Tok] = i
+		}
+		last := map[int]int{} // connection -> issue index of the latest handler start
+		seen := map[int]int{}
+		var got []string
+		for _, e := range w.EventsOf("enter", 2) {
+			i, ok := issue[e.Tok]
+			if !ok {
+				continue
+			}
+			got = append(got, fmt.Sprintf("t%d@conn%d", e.Tok, e.Conn))
+			seen[e.Tok]++
+			if seen[e.Tok] == 2 {
+				fail("C03/handler-twice", pairKey(p.seq), "%s: node 2 started the handler of call t%d twice (%v)", p.name(), e.Tok, got)
+			}
+			if l, ok := last[e.Conn]; ok && i < l {
+				fail("C03/order", pairKey(p.seq), "%s: on connection %d node 2 started the handler of call %d of the sequence after that of call %d (%v)", p.name(), e.Conn, i+1, l+1, got)
+			}
+			last[e.Conn] = i
+		}
+		mc.Outcome("back=%d delivered=%v", back, got)
+	}
+}
+
 func pairKey(seq []callSpec) string {
 	var s []string
 	for _, c := range seq {
@@ -246,6 +317,21 @@ func fifoInstances(tier string) []Instance {
 			add(fifoParams{seq: []callSpec{u, u, u, last}, buf: buf, window: 1, threads: 1}, 1)
 		}
 	}
+	// outage: triples issued while node 2 is down, the node coming back at any instant (adversary thread)
+	redO := []callSpec{{kind: "Unicast", node: 2, nsw: true}, {kind: "Multicast", nsw: true}, {kind: "Unicast", node: 2}, {kind: "QuorumCallAsync"}}
+	for _, a := range redO {
+		for _, b := range redO {
+			for _, c := range redO {
+				for _, buf := range []uint{0, 3} {
+					if buf == 0 && !thorough(tier) && (a != b || b != c) {
+						continue
+					}
+					p := fifoParams{seq: []callSpec{a, b, c}, buf: buf, window: 3, threads: 1}
+					out = append(out, Instance{Name: "outage/" + p.name(), Bound: 1, Root: fifoOutageScenario(p)})
+				}
+			}
+		}
+	}
 	// triples over a reduced alphabet (one representative per runtime path)
 	red := []callSpec{{kind: "QuorumCall"}, {kind: "QuorumCallAsync"}, {kind: "CorrectableStream"}, {kind: "Multicast"}, {kind: "Multicast", nsw: true}, {kind: "Unicast", node: 2, nsw: true}, {kind: "GRPCCall", node: 2}}
 	for _, a := range red {
@@ -270,7 +356,7 @@ func fifoInstances(tier string) []Instance {
 
 func init() {
 	register(&Check{ID: "C03",
-		Rule:        "every ordered pair over 11 call variants (RPC, quorum call, per-node, async, correctable, correctable stream, multicast with/without send-waiting, per-node multicast, unicast with/without send-waiting) x send buffer {0,1,2} x transport window {1,3}, issued by one client thread or by two threads ordered by happens-before, plus every triple over 7 representatives and a backlog family (three queued one-way messages, then each variant, send buffer {1,2}); node 2's first handler is slow so stragglers of earlier calls are still queued; all schedules within the deviation bound; oracle: per server the handler start order equals the issue order, no handler twice, every targeted server handles every call; an outcome is (instance, number of handler starts)",
+		Rule:        "every ordered pair over 11 call variants (RPC, quorum call, per-node, async, correctable, correctable stream, multicast with/without send-waiting, per-node multicast, unicast with/without send-waiting) x send buffer {0,1,2} x transport window {1,3}, issued by one client thread or by two threads ordered by happens-before, plus every triple over 7 representatives a backlog family (three queued one-way messages, then each variant, send buffer {1,2}), and an outage family (every triple over 4 variants issued while node 2 is down, send buffer {0,3}, the node restarted by an adversary thread at any instant, back-off timers fired between quiescent points: per connection the delivered calls start in issue order, none twice); node 2's first handler is slow so stragglers of earlier calls are still queued; all schedules within the deviation bound; oracle: per server the handler start order equals the issue order, no handler twice, every targeted server handles every call; an outcome is (instance, number of handler starts)",
 		Gen:         fifoInstances,
 		Assumptions: []string{"transport is the fakegrpc model (ordered frames per stream, bounded window); quorum size 1 of 2", "interleavings up to the reported deviation bound"},
 	})
